@@ -165,6 +165,13 @@ class Exec:
             return SKIP
         self.w.ctx = op.get("new") or "x"
         try:
+            if op.get("w_error"):
+                # process-wide setting seam: this one call runs with the
+                # interpreter's warning filter at "error"
+                from egsim.seams import WarningsAsErrors
+
+                with WarningsAsErrors(True):
+                    return {"ret": self.norm(fn(op))}
             return {"ret": self.norm(fn(op))}
         except _Missing:
             return SKIP
